@@ -8,7 +8,8 @@
                           EINVALIDPARAMS otherwise, the backend is then not reached);
   `decode_failure`        backend decode fails (on the slow path, the only place it is called) ⇒
                           decode returns that code, for every fragment list and force flag;
-  `reconstruct_failure`   backend reconstruct fails ⇒ reconstruct returns that code;
+  `reconstruct_failure`   backend reconstruct fails ⇒ reconstruct returns that code (or the header
+                          loop's EBADHEADER before the backend is reached);
   `needed_failure`        backend fragments_needed fails ⇒ the query returns that code;
   `init_failure`          backend init refuses ⇒ create returns EBACKENDINITERR and the registry
                           is unchanged (no instance left behind, descriptor counter untouched);
@@ -99,8 +100,11 @@ theorem reconstruct_failure (env : Env) (be : Backend) (i : Inst) (frags : List 
     (d p : List (Option Bytes)) (missing : List Nat)
     (hp : getFragmentPartition i.k i.m frags = .ok (d, p, missing))
     (hd : 0 ≤ dest ∧ dest < ((i.k + i.m : Nat) : Int)) (hl : Hdr.size ≤ fragLen)
-    (hh : frags.any isInvalidHeader = false) (hm : missing.contains dest.toNat = true) :
+    (hm : missing.contains dest.toNat = true) :
     ∃ e, reconstruct env be i frags fragLen dest = .error e := by
+  by_cases hg : frags.any (gateBad fragLen) = true
+  · exact ⟨_, reconstruct_gate_fail env be i frags fragLen dest hd hl hg⟩
+  have hh : frags.any (gateBad fragLen) = false := by simpa using hg
   unfold reconstruct
   have h1 : (decide (dest < 0) || decide (dest ≥ ((i.k + i.m : Nat) : Int))) = false := by simp; omega
   simp only [h1, Bool.false_eq_true, if_false, show ¬ fragLen < Hdr.size from by omega, hh, hp, hm,
